@@ -6,6 +6,7 @@ import (
 	"bytes"
 	"context"
 	"fmt"
+	"io"
 	"os"
 	"os/exec"
 	"path/filepath"
@@ -16,6 +17,7 @@ import (
 	"sync/atomic"
 	"syscall"
 	"time"
+	"unsafe"
 )
 
 // Result is the observation of one child run.
@@ -90,6 +92,36 @@ func (c *capBuf) Write(p []byte) (int, error) {
 	return len(p), nil
 }
 
+// pieceReader hands out its bytes in pieces, pausing before every piece but the first, so that the
+// child sees several short reads on its standard input.
+type pieceReader struct {
+	b     []byte
+	piece int
+	off   int
+}
+
+func (p *pieceReader) Read(out []byte) (int, error) {
+	if p.off >= len(p.b) {
+		return 0, io.EOF
+	}
+	if p.off > 0 {
+		time.Sleep(30 * time.Millisecond)
+	}
+	n := p.piece
+	if n < 1 {
+		n = 1
+	}
+	if n > len(out) {
+		n = len(out)
+	}
+	if p.off+n > len(p.b) {
+		n = len(p.b) - p.off
+	}
+	copy(out, p.b[p.off:p.off+n])
+	p.off += n
+	return n, nil
+}
+
 // Opt modifies a single run.
 type Opt struct {
 	Stdin  []byte
@@ -97,6 +129,21 @@ type Opt struct {
 	Env    []string
 	CPUSec int
 	Bin    string
+	// Redirect is a shell redirection applied to the child by the wrapper shell, e.g. ">/dev/full",
+	// ">&-" (standard output closed) or "<&-" (standard input closed). One of a few constants, never input-derived.
+	Redirect string
+	// NoFile lowers the open-file limit of the child (ulimit -n), 0 = unchanged.
+	NoFile int
+	// StdinPieces > 1 delivers Stdin in that many pieces with a pause between them (a producer that is slower
+	// than crd: reads return short).
+	StdinPieces int
+	// StdinKind selects what the child's standard input is: "" or "pipe" (default), "file" (a regular file
+	// at offset 0), "fileoffset" (a regular file whose first line another reader has consumed already),
+	// "socket" (one end of a socket pair), "pty" (a terminal: the bytes are typed, then the end-of-file key as
+	// often as the reader asks, up to 40 times) or "pty1" (the end-of-file key is pressed exactly once).
+	StdinKind string
+	// IdleAfter overrides the runner's delay before a lingering child is sampled for "blocked".
+	IdleAfter time.Duration
 }
 
 // Run executes the binary with args. Stdin nil means /dev/null.
@@ -112,13 +159,34 @@ func (r *Runner) Run(o Opt, args ...string) *Result {
 	}
 	ctx, cancel := context.WithTimeout(context.Background(), r.Wall)
 	defer cancel()
-	shArgs := append([]string{"-c", fmt.Sprintf("ulimit -t %d; exec \"$0\" \"$@\"", cpu), bin}, args...)
+	limits := fmt.Sprintf("ulimit -t %d", cpu)
+	if o.NoFile > 0 {
+		limits += fmt.Sprintf("; ulimit -n %d", o.NoFile)
+	}
+	shArgs := append([]string{"-c", fmt.Sprintf("%s; exec \"$0\" \"$@\" %s", limits, o.Redirect), bin}, args...)
 	cmd := exec.CommandContext(ctx, "/bin/sh", shArgs...)
 	cmd.Dir = o.Dir
 	cmd.Env = append([]string{"PATH=/usr/bin:/bin", "HOME=/nonexistent", "LANG=C"}, r.Env...)
 	cmd.Env = append(cmd.Env, o.Env...)
-	if o.Stdin != nil {
-		cmd.Stdin = bytes.NewReader(o.Stdin)
+	var after []func()
+	defer func() {
+		for _, f := range after {
+			f()
+		}
+	}()
+	if o.Stdin != nil && o.StdinKind != "" && o.StdinKind != "pipe" {
+		f, cleanup, err := specialStdin(o.StdinKind, o.Stdin)
+		if err != nil {
+			return &Result{Argv: append([]string{}, args...), StartErr: err, Exit: -1}
+		}
+		after = append(after, cleanup)
+		cmd.Stdin = f
+	} else if o.Stdin != nil {
+		if o.StdinPieces > 1 {
+			cmd.Stdin = &pieceReader{b: o.Stdin, piece: (len(o.Stdin) + o.StdinPieces - 1) / o.StdinPieces}
+		} else {
+			cmd.Stdin = bytes.NewReader(o.Stdin)
+		}
 	}
 	so := &capBuf{max: r.MaxOut}
 	se := &capBuf{max: r.MaxOut}
@@ -129,7 +197,7 @@ func (r *Runner) Run(o Opt, args ...string) *Result {
 	if err == nil {
 		done := make(chan error, 1)
 		go func() { done <- cmd.Wait() }()
-		err = r.supervise(cmd, done, res)
+		err = r.supervise(cmd, done, res, o.IdleAfter)
 	}
 	res.Stdout = so.b.Bytes()
 	res.Stderr = se.b.Bytes()
@@ -158,8 +226,11 @@ func (r *Runner) Run(o Opt, args ...string) *Result {
 // is sleeping, nothing in it can make progress any more (its stdin is fully written and closed by
 // then) and it is killed and reported as Blocked. A child that keeps consuming CPU is left to the
 // CPU-time rlimit; the wall-clock limit of the context only ever yields "inconclusive".
-func (r *Runner) supervise(cmd *exec.Cmd, done chan error, res *Result) error {
+func (r *Runner) supervise(cmd *exec.Cmd, done chan error, res *Result, override time.Duration) error {
 	idleAfter := r.IdleAfter
+	if override > 0 {
+		idleAfter = override
+	}
 	if idleAfter == 0 {
 		idleAfter = 25 * time.Second
 	}
@@ -318,4 +389,144 @@ func ShellQuote(args []string) string {
 		b.WriteString("'" + strings.ReplaceAll(a, "'", `'\''`) + "'")
 	}
 	return b.String()
+}
+
+// specialStdin prepares a standard input that is not a pipe.
+func specialStdin(kind string, data []byte) (*os.File, func(), error) {
+	switch kind {
+	case "file", "fileoffset":
+		f, err := os.CreateTemp("", "verif-stdin-")
+		if err != nil {
+			return nil, nil, err
+		}
+		prefix := ""
+		if kind == "fileoffset" {
+			prefix = "title: this line was read by somebody else before crd started\n"
+		}
+		if _, err := f.WriteString(prefix); err == nil {
+			_, err = f.Write(data)
+		}
+		if _, err := f.Seek(int64(len(prefix)), io.SeekStart); err != nil {
+			f.Close()
+			os.Remove(f.Name())
+			return nil, nil, err
+		}
+		return f, func() { f.Close(); os.Remove(f.Name()) }, nil
+	case "socket":
+		fds, err := syscall.Socketpair(syscall.AF_UNIX, syscall.SOCK_STREAM, 0)
+		if err != nil {
+			return nil, nil, err
+		}
+		child := os.NewFile(uintptr(fds[0]), "socket-stdin")
+		done := make(chan struct{})
+		go func() {
+			defer close(done)
+			b := data
+			for len(b) > 0 {
+				n, err := syscall.Write(fds[1], b)
+				if err != nil || n <= 0 {
+					break
+				}
+				b = b[n:]
+			}
+			syscall.Shutdown(fds[1], syscall.SHUT_WR)
+		}()
+		return child, func() { child.Close(); syscall.Shutdown(fds[1], syscall.SHUT_RDWR); <-done; syscall.Close(fds[1]) }, nil
+	case "pty":
+		return ptyStdin(data, 40)
+	case "pty1":
+		return ptyStdin(data, 1)
+	}
+	return nil, nil, fmt.Errorf("unknown stdin kind %q", kind)
+}
+
+// PtyTypable tells whether the bytes can be typed on a terminal in canonical mode unchanged: lines of
+// at most 1000 bytes, no control characters but line feed.
+func PtyTypable(data []byte) bool {
+	if len(data) > 3000 {
+		return false
+	}
+	line := 0
+	for _, b := range data {
+		if b == '\n' {
+			line = 0
+			continue
+		}
+		line++
+		if b < 0x20 || b == 0x7f || line > 1000 {
+			return false
+		}
+	}
+	return true
+}
+
+// ptyStdin opens a pseudo terminal, types the data on it (a final line feed is added when missing) followed by
+// a run of end-of-file keys, and returns the terminal side for the child.
+func ptyStdin(data []byte, eofKeys int) (*os.File, func(), error) {
+	m, err := os.OpenFile("/dev/ptmx", os.O_RDWR|syscall.O_NOCTTY, 0)
+	if err != nil {
+		return nil, nil, err
+	}
+	var n uint32
+	var unlock int32
+	if _, _, e := syscall.Syscall(syscall.SYS_IOCTL, m.Fd(), syscall.TIOCSPTLCK, uintptr(unsafe.Pointer(&unlock))); e != 0 {
+		m.Close()
+		return nil, nil, e
+	}
+	if _, _, e := syscall.Syscall(syscall.SYS_IOCTL, m.Fd(), syscall.TIOCGPTN, uintptr(unsafe.Pointer(&n))); e != 0 {
+		m.Close()
+		return nil, nil, e
+	}
+	t, err := os.OpenFile(fmt.Sprintf("/dev/pts/%d", n), os.O_RDWR|syscall.O_NOCTTY, 0)
+	if err != nil {
+		m.Close()
+		return nil, nil, err
+	}
+	var tio syscall.Termios
+	if _, _, e := syscall.Syscall(syscall.SYS_IOCTL, t.Fd(), syscall.TCGETS, uintptr(unsafe.Pointer(&tio))); e != 0 {
+		m.Close()
+		t.Close()
+		return nil, nil, e
+	}
+	tio.Lflag |= syscall.ICANON
+	tio.Lflag &^= syscall.ECHO | syscall.ECHOE | syscall.ECHOK | syscall.ECHONL | syscall.ISIG | syscall.IEXTEN
+	tio.Iflag &^= syscall.IXON | syscall.IXOFF | syscall.ICRNL | syscall.INLCR | syscall.IGNCR | syscall.ISTRIP
+	for _, cc := range []int{syscall.VERASE, syscall.VKILL, syscall.VWERASE, syscall.VLNEXT, syscall.VREPRINT, syscall.VINTR, syscall.VQUIT, syscall.VSUSP, syscall.VSTART, syscall.VSTOP, syscall.VEOL, syscall.VEOL2} {
+		tio.Cc[cc] = 0
+	}
+	tio.Cc[syscall.VEOF] = 4
+	if _, _, e := syscall.Syscall(syscall.SYS_IOCTL, t.Fd(), syscall.TCSETS, uintptr(unsafe.Pointer(&tio))); e != 0 {
+		m.Close()
+		t.Close()
+		return nil, nil, e
+	}
+	stop := make(chan struct{})
+	done := make(chan struct{})
+	go func() {
+		defer close(done)
+		b := append([]byte{}, data...)
+		if len(b) > 0 && b[len(b)-1] != '\n' {
+			b = append(b, '\n')
+		}
+		// line by line, so that a line never waits behind a full input queue
+		for len(b) > 0 {
+			i := bytes.IndexByte(b, '\n') + 1
+			if _, err := m.Write(b[:i]); err != nil {
+				return
+			}
+			b = b[i:]
+		}
+		// end of input: a terminal reports it once per key, and a reader may ask again
+		for k := 0; k < eofKeys; k++ {
+			select {
+			case <-stop:
+				return
+			case <-time.After(25 * time.Millisecond):
+			}
+			if _, err := m.Write([]byte{4}); err != nil {
+				return
+			}
+		}
+	}()
+	return t, func() { close(stop); <-done; t.Close(); m.Close() }, nil
 }
